@@ -912,7 +912,8 @@ func ruleFilterCompaction(r *Run, rule string) {
 func rulesC12(r *Run) {
 	r.Kind("R1", "K3")
 	ruleStartExclusion(r, "R1")
-	r.Expect("R1", 1)
+	ruleWaiterRelease(r, "R1")
+	r.Expect("R1", 2)
 
 	r.Kind("R2", "K5+K2")
 	ruleValidateStartState(r, "R2")
@@ -1600,4 +1601,70 @@ func originIsCall(info *types.Info, p *Path, idx int, e ast.Expr, key string) bo
 	}
 	f, ok := calleeFunc(info, c)
 	return ok && FuncKey(f) == key
+}
+
+// ruleWaiterRelease: the waiter of a plan is released (closed, removed from the map) only by the
+// goroutine that ran the plan — in runPlan or in helpers only runPlan reaches. Anything else (a rejected
+// Start "cleaning up", a Stop, a Wait) releasing it lets Wait return while the plan executes and lets a
+// further Start slip past the already-running test.
+func ruleWaiterRelease(r *Run, rule string) {
+	g := r.P.CallGraph()
+	n := 0
+	for _, fn := range r.P.sortedFuncs() {
+		if relPkg(fn.Pkg.PkgPath) != pkgExec || fn.Decl.Body == nil {
+			continue
+		}
+		info := fn.Pkg.TypesInfo
+		isWaiters := func(e ast.Expr) bool {
+			_, m := FieldPath(info, e, "execute.Plans", "waiters")
+			return m
+		}
+		fromWaiters := map[types.Object]bool{} // locals obtained from waiters.Get
+		var sites []token.Pos
+		var what []string
+		ast.Inspect(fn.Decl.Body, func(x ast.Node) bool {
+			switch c := x.(type) {
+			case *ast.AssignStmt:
+				if len(c.Rhs) == 1 {
+					if call, ok := ast.Unparen(c.Rhs[0]).(*ast.CallExpr); ok {
+						if sel, ok := ast.Unparen(call.Fun).(*ast.SelectorExpr); ok && sel.Sel.Name == "Get" && isWaiters(sel.X) && len(c.Lhs) >= 1 {
+							if o := ObjOf(info, c.Lhs[0]); o != nil {
+								fromWaiters[o] = true
+							}
+						}
+					}
+				}
+			case *ast.CallExpr:
+				if sel, ok := ast.Unparen(c.Fun).(*ast.SelectorExpr); ok && isWaiters(sel.X) && (sel.Sel.Name == "Del" || sel.Sel.Name == "Delete" || sel.Sel.Name == "Clear") {
+					sites = append(sites, c.Pos())
+					what = append(what, "removes a waiter")
+				}
+				if id, ok := c.Fun.(*ast.Ident); ok && id.Name == "close" && len(c.Args) == 1 {
+					if o := ObjOf(info, c.Args[0]); o != nil && fromWaiters[o] {
+						sites = append(sites, c.Pos())
+						what = append(what, "closes a waiter")
+					}
+				}
+			}
+			return true
+		})
+		if len(sites) == 0 {
+			continue
+		}
+		n++
+		ok := g.OnlyCalledFrom(fn.Key, func(k string) bool { return k == execKey("Plans.runPlan") })
+		r.Check(rule, "waiter-released-only-by-runner:"+ShortFn(fn.Key), sites[0], ok,
+			"%s %s but is reachable from other callers than runPlan (%v): only the goroutine that ran the plan may release its waiter, after the state machine returned — otherwise Wait returns while the plan executes and a further Start is accepted", ShortFn(fn.Key), what[0], callerNames(g, fn.Key))
+	}
+	if n == 0 {
+		r.Unresolved(rule, "a function releasing Plans.waiters")
+	}
+}
+
+func callerNames(g *CallGraph, key string) []string {
+	set := map[string]bool{}
+	for _, e := range g.Callers(key) {
+		set[ShortFn(e.Caller)] = true
+	}
+	return sortedKeys(set)
 }
